@@ -262,6 +262,13 @@ def check(t0, t1, ordered, reduce, res):
                     errs.append(f"{path} is marked {n.get_meta('dc')} with reduce=True but {fdc} with reduce=False")
             if not n.children and not n.get_meta("dc"):
                 errs.append(f"reduced result keeps unmarked leaf {path}")
+        # reduce keeps exactly the marked nodes and their ancestors: every node that carries a mark in the full result is kept
+        # (not for MOVED_HERE: which of several added occurrences is re-classified differs from call to call, and the full
+        # and the reduced result come from two calls)
+        for path, n in inF.items():
+            if n.get_meta("dc") is not None and n.get_meta("dc") != DC.MOVED_HERE and path not in inR:
+                errs.append(f"{path} is marked {n.get_meta('dc')} in the full result but missing from the reduced one")
+                break
         n_here_full = sum(1 for n in full if n.get_meta("dc") == DC.MOVED_HERE)
         n_here_red = sum(1 for n in t2 if n.get_meta("dc") == DC.MOVED_HERE)
         n_to_full = sum(1 for n in full if n.get_meta("dc") == DC.MOVED_TO)
